@@ -14,7 +14,7 @@ RULE = ("N=1: all 576 ordered pairs and all 13824 triples of the 24 maps; N=2: a
 ASSUMPTIONS = ["operands are valid maps; composition a.compose(b) means 'a first, then b'",
                "oracle composition = images of a's rows under b by table products; inverse by GF(2) inverse + phase solve"]
 REQUIRED_SUBS = ["assoc", "seq_vs_compose", "neutral.l", "neutral.r", "inv.l", "inv.r", "inv.antihom", "vs_oracle.compose",
-                 "vs_oracle.inverse", "immutable", "fresh", "z2inv", "history.inverse", "history.compose", "retained"]
+                 "vs_oracle.inverse", "immutable", "fresh", "z2inv", "history.inverse", "history.compose", "history.result_edit", "retained"]
 
 
 def shards(tier):
@@ -25,6 +25,8 @@ def shards(tier):
         {"name": "n1.torch", "mode": "jit", "backend": "torch", "fn": "n1", "triples": 600 if q else 13824},
         {"name": "rand.np.jit", "mode": "jit", "backend": "np", "fn": "rand", "n": 500 if q else 40000},
         {"name": "forms.np.jit", "mode": "jit", "backend": "np", "fn": "rand", "n": 120 if q else 5000, "forms": 1},
+        {"name": "frozen.np.jit", "mode": "jit", "backend": "np", "fn": "frozen", "n": 150 if q else 5000},
+        {"name": "frozen.np.interp", "mode": "interp", "backend": "np", "fn": "frozen", "n": 60 if q else 1500},
         {"name": "rand.np.interp", "mode": "interp", "backend": "np", "fn": "rand", "n": 100 if q else 3000},
         {"name": "rand.torch", "mode": "jit", "backend": "torch", "fn": "rand", "n": 100 if q else 4000},
         {"name": "big.np.jit", "mode": "jit", "backend": "np", "fn": "big", "n": 1 if q else 12},
@@ -174,6 +176,29 @@ def single_laws(rec, B, a, rng):
             hc = dict(case, step=step, how=["rotate_by", "transform_by", "sign write", "embed"][how], now=_show(cur[0], np.asarray(cur[1]) % 4))
             rec.check("history.inverse", _eq(B, R[0], xg, xp) and _eq(B, R[1], ig, ip), hc, True, expected=_show(xg, xp), observed=_show(*B.gsps(R[0])))
             rec.check("history.compose", _eq(B, R[2], sq[0], sq[1]), hc, True, expected=_show(*sq), observed=_show(*B.gsps(R[2])))
+    # the RESULT of an inversion / composition belongs to the caller: it is edited in place (into other valid maps) and the same
+    # question is asked again - of the same object, of a copy, of a sign variant
+    Q0 = B.Map(ag.copy(), ap.copy())
+    ok, W = rec.attempt("history.result_edit", case, lambda: Q0.inverse())
+    if ok:
+        for step in range(2):
+            G, PG = gen.rand_nonid(rng, N), 2 * int(rng.integers(2))
+            ok, _ = rec.attempt("history.result_edit", case, (lambda: W.rotate_by(B.Pauli(G, PG))) if step == 0 else
+                                (lambda: W.transform_by(B.Map(*O.random_map(rng, N)))))
+            who = [Q0, Q0.copy(), B.Map(ag.copy(), (ap + 2 * rng.integers(0, 2, len(ap))) % 4)][int(rng.integers(3))]
+            wg, wp = B.gsps(who)
+            ok, W2 = rec.attempt("history.result_edit", case, lambda: who.inverse())
+            if ok:
+                xg, xp = O.map_inverse(wg, wp)
+                rec.check("history.result_edit", _eq(B, W2, xg, xp), dict(case, step=step), True, expected=_show(xg, xp), observed=_show(*B.gsps(W2)))
+                W = W2
+        ok, Cc = rec.attempt("history.result_edit", case, lambda: Q0.compose(Q0))
+        if ok:
+            Cc.rotate_by(B.Pauli(gen.rand_nonid(rng, N), 0))
+            ok, C2 = rec.attempt("history.result_edit", case, lambda: Q0.compose(Q0))
+            if ok:
+                sq = O.map_compose(ag, ap, ag, ap)
+                rec.check("history.result_edit", _eq(B, C2, sq[0], sq[1]), dict(case, op="compose"), True)
     # action: inverse undoes the map on operators
     gs = gen.rand_list(rng, 5, N)
     ps = rng.integers(0, 4, 5)
@@ -194,6 +219,31 @@ def triple_law(rec, B, a, b, c):
         xg, xp = O.map_compose(*O.map_compose(a[0], a[1], b[0], b[1]), c[0], c[1])
         rec.check("assoc", _eq(B, R[1], g1, p1) and np.array_equal(g1, xg) and np.array_equal(p1, xp % 4), case, nt,
                   expected=_show(xg, xp), observed=[_show(g1, p1), _show(*B.gsps(R[1]))])
+
+
+def run_frozen(shard, rec, B):
+    """operands held in read-only arrays (frozen constants, memory-mapped tables): composition and inversion only read them."""
+    rng = gen.rng_for(rec)
+    for t in range(shard["n"]):
+        N = int(rng.integers(1, 7))
+        a, b = O.random_map(rng, N), O.random_map(rng, N)
+        A, Bm = B.freeze(B.Map(a[0].copy(), a[1].copy())), B.freeze(B.Map(b[0].copy(), b[1].copy()))
+        case = {"a": _show(*a), "b": _show(*b), "arrays": "read-only"}
+        ok, R = rec.attempt("frozen", case, lambda: (A.compose(Bm), A.inverse(), A.compose(A.inverse()), Bm.inverse().compose(A.inverse()), A.compose(Bm).inverse()))
+        if ok:
+            ab = O.map_compose(a[0], a[1], b[0], b[1])
+            ia = O.map_inverse(a[0], a[1])
+            iab = O.map_inverse(*ab)
+            idn = O.map_identity(N)
+            rec.check("frozen", _eq(B, R[0], *ab) and _eq(B, R[1], *ia) and _eq(B, R[2], *idn) and _eq(B, R[3], *iab) and _eq(B, R[4], *iab), case, True)
+            rec.check("frozen.immutable", _eq(B, A, a[0], a[1]) and _eq(B, Bm, b[0], b[1]), case, True)
+        gs, ps = gen.rand_list(rng, 4, N), rng.integers(0, 4, 4)
+        P = B.PauliList(gs.copy(), ps.copy())
+        ok, _ = rec.attempt("frozen.action", case, lambda: P.transform_by(A))
+        if ok:
+            eg, ep = O.map_image_list(a[0], a[1], gs, ps)
+            g1, p1 = B.gsps(P)
+            rec.check("frozen.action", np.array_equal(g1, eg) and np.array_equal(p1, ep % 4), case, True)
 
 
 def run_n1(shard, rec, B):
@@ -260,6 +310,12 @@ def run_rand(shard, rec, B):
     for t in range(shard["n"]):
         N = Ns[t % len(Ns)]
         a, b, c = (O.random_map(rng, N) for _ in range(3))
+        if t % 3 == 1:      # structured maps (wire permutations with signs, CNOT networks, diagonal maps, Hadamard layers)
+            from .c03 import structured_map
+            a, b = structured_map(rng, N), structured_map(rng, N)
+            a, b = (a[0], a[1] % 4), (b[0], b[1] % 4)
+            if t % 2:
+                c = structured_map(rng, N)
         single_laws(rec, B, a, rng)
         pair_laws(rec, B, a, b, rng)
         triple_law(rec, B, a, b, c)
